@@ -4,7 +4,7 @@ CFG = {
     "batches": lambda tier, seed: [("exhaustive", "-mode exhaustive -tier %s" % tier),
                                    ("random", "-mode random -tier %s" % tier)],
     "signatures": {},
-    "rule": "one case = one input slice followed by every algorithm run on a fresh copy of it. "
+    "rule": "one case = one input slice followed by every algorithm run on a fresh copy of it; in 5 of 8 cases the copy is a window of a larger backing array (whole[lo:hi], a prefix buf[:k], three-index slices with cap > len or cap == len) surrounded by guard elements, and besides the output every guard element must be unchanged (kind=api; arrays are values in the model, so the model side is unaffected by the layout). "
             "exhaustive: every slice of length <= 7 (thorough: 9) over keys {-1,0,1} tagged by position "
             "(the comparator ignores the tag; 3*(k1-k2) at full length, and k1-k2, -1/0/+1, reversed k2-k1, sign*(1+(k1-k2)^2) up to length 5 (7) and at random in the random batch, so that only the sign of the comparator may matter) x {Selection, Insertion, Shell, Merge, MergeRec, Quick3Way, Heap, unshuffled quick, "
             "Quick, quick after a scripted Shuffle, Shuffle, Select k for every k, partition, merge}; every slice of length <= 3 (4) over "
